@@ -209,5 +209,7 @@ def explore(ex, key, c):
                 unsupported.append(f'{key} case {ci}: recursion limit')
             work.extend(oracle.new)
             st = ex.st
-            results.append(PathResult(ci, list(oracle.prefix), outcome, st.obligations if err is None else [], getattr(st, 'inputs', {}), err))
+            pr = PathResult(ci, list(oracle.prefix), outcome, st.obligations if err is None else [], getattr(st, 'inputs', {}), err)
+            pr.old_heap = st.old_heap or {}
+            results.append(pr)
     return results, unsupported
